@@ -41,9 +41,18 @@ meta['demo_on_repo'] = {'exit': rc0, 'tail': o0.strip().splitlines()[-3:]}
 meta['demo_on_change'] = {'exit': rc1, 'tail': [l for l in o1.strip().splitlines() if 'WARNING' not in l][-6:]}
 meta['confirmed'] = (rc0 == 0 and rc1 != 0)
 results = {}
+import glob
+GEN = '/verif/lean/VizierModel/Generated'
+
+
+def gen_snapshot():
+  return {f: open(f).read() for f in glob.glob(GEN + '/*.lean')}
+
+
 for chk in [pid] + also:
   ev = '/verif/evidence/%s.json' % chk
   ev_backup = open(ev).read() if os.path.exists(ev) else None
+  gen_backup = gen_snapshot()      # the older translators regenerate their table in place: facts of a changed tree must not stay
   t0 = time.time()
   rc, o = run(['/verif/check', chk, '--tier', tier], env={'VERIF_REPO': wt}, cwd='/verif')
   lines = [l for l in o.splitlines() if l.startswith('VIOLATION') or l.startswith('  ') or l.startswith('KNOWN-FINDING')]
@@ -51,6 +60,9 @@ for chk in [pid] + also:
                   'violations': [l[:400] for l in lines if not l.startswith('KNOWN')][:8]}
   if ev_backup is not None:
     open(ev, 'w').write(ev_backup)      # evidence must come from runs against /repo itself
+  for f, txt in gen_backup.items():
+    if not os.path.exists(f) or open(f).read() != txt:
+      open(f, 'w').write(txt)
   print(chk, tier, 'exit', rc, '%.0fs' % (time.time() - t0))
   for l in results[chk]['violations'][:4]: print('   ', l[:220])
 meta['checks'] = results
